@@ -73,18 +73,35 @@ func (n *Node) pendingApply() bool {
 	return n.app.rd != nil && n.app.stage < 4 && len(n.app.rd.CommittedEntries) > 0
 }
 
+// exec runs one operation; a panic that escapes the recorded calls (HasReady, the state dump,
+// a storage read of the harness) ends the schedule and is reported like any other panic.
 func (c *Cluster) exec(op string) {
+	if c.stopped {
+		return
+	}
+	defer func() {
+		if r := recover(); r != nil {
+			c.stopped = true
+			c.mon.report("C14", "", "panic outside a recorded call during %q: %s", op, sanitize(fmt.Sprint(r)))
+		}
+	}()
+	c.execOp(op)
+}
+
+func (c *Cluster) execOp(op string) {
 	c.logOp("%s", op)
 	f := strings.Fields(op)
 	switch f[0] {
 	case "tick":
 		if n := c.nodeArg(f[1]); n != nil && n.alive {
 			n.tick()
+			c.mon.onTick(n)
 			c.mon.afterOp(n, "tick")
 		}
 	case "tickall":
 		for _, n := range c.alive() {
 			n.tick()
+			c.mon.onTick(n)
 			c.mon.afterOp(n, "tick")
 		}
 	case "deliver", "dup":
@@ -132,6 +149,37 @@ func (c *Cluster) exec(op string) {
 			d := n.rn.VerifState()
 			c.mon.onPropose(tok, out, d.State == raft.StateLeader)
 			c.mon.afterOp(n, "propose")
+		}
+	case "proposebatch":
+		// one MsgProp carrying several entries (RawNode.Step), optionally with a
+		// configuration change at position f[3]: proposebatch <node> <n> [<pos> <ccspec>]
+		if n := c.nodeArg(f[1]); n != nil && n.alive {
+			cnt := int(atou(f[2]))
+			var ents []*pb.Entry
+			var toks []string
+			for i := 0; i < cnt; i++ {
+				if len(f) > 4 && i == int(atou(f[3])) {
+					typ, data, _ := pb.MarshalConfChange(parseCC(f[4]))
+					ents = append(ents, &pb.Entry{Type: typ.Enum(), Data: data})
+					continue
+				}
+				c.tok++
+				tok := fmt.Sprintf("p%d", c.tok)
+				if c.rng.Intn(2) == 0 {
+					tok += strings.Repeat("y", c.rng.Intn(40))
+				}
+				toks = append(toks, tok)
+				ents = append(ents, &pb.Entry{Data: []byte(tok)})
+			}
+			m := &pb.Message{Type: pb.MsgProp.Enum(), From: new(n.id), Entries: ents}
+			c.mon.beforeStep(n, m)
+			out := n.step(m)
+			d := n.rn.VerifState()
+			for _, tok := range toks {
+				c.mon.onPropose(tok, out, d.State == raft.StateLeader)
+			}
+			c.mon.onBatch(n, ents, out)
+			c.mon.afterOp(n, "step")
 		}
 	case "proposecc":
 		if n := c.nodeArg(f[1]); n != nil && n.alive {
